@@ -761,11 +761,19 @@ def make_class(C: dict, sp: int = 0) -> type:
     cond = concretise_cond(hook['c']) if hook['k'] == 'rejectif' else None
     fname = text(hook['f']) if hook['k'] == 'rejectif' else None
 
-    def __post_init__(self, _c=cond, _f=fname, _n=counter):
+    setname = text(hook['f']) if hook['k'] == 'rejectifset' else None
+
+    def __post_init__(self, _c=cond, _f=fname, _n=counter, _s=setname):
         _n[0] += 1                    # observable: how often the hook ran (C14, C16)
         if _c is not None and _c.f(getattr(self, _f)):
             raise ValueError('hook refuses ' + _f)
-    ns['__post_init__'] = __post_init__
+        if _s is not None and _s in self.__pane_set__:        # the hook's own view of the set-field record
+            raise ValueError('hook refuses an explicitly given ' + _s)
+    inherits_hook = parent is not None and canon(parent['hook']) == canon(hook)
+    if inherits_hook:
+        counter = HOOK_COUNTERS[base_cls]         # the hook (and its run counter) is the parent's: not defined again
+    else:
+        ns['__post_init__'] = __post_init__
     inf = C['inf']['$set'] if isinstance(C['inf'], dict) else C['inf']
     opts = {'in_format': tuple(sorted(inf)), 'out_format': C['outf']}
     if C['extra'] == 'T':
